@@ -646,8 +646,11 @@ def run(ctx):  # noqa: F811
     r02_5_return(ctx)
     r02_6_recursive_abi_probe(ctx)
     from rules.lowering_sem import r04_9_whole_program
-    from rules import c10 as _c10
+    from rules import c10 as _c10, c04 as _c04
 
+    _c04.r04_1_op_table(ctx)  # the ops of both conventions (proto, frame_dig, frame_bury, callsub, retsub, cover ...) carry the AVM's modes and versions (shared with C04)
+    _c04.r04_5_final_sweep(ctx)  # a routine that needs an op the version lacks (loads / stores for by-reference parameters below v5) is refused (shared with C04)
+    _c04.r04_8_has_return(ctx)  # a routine gets its closing retsub unless every path of its body returns (shared with C04)
     _c10.r10_1_assignment(ctx)  # a callee's parameter / output variable never shares an index with a caller's variable (shared with C10)
 
     r04_9_whole_program(ctx)  # every callsub reaches the routine it names and every routine returns to its caller (shared with C04)
